@@ -44,6 +44,8 @@ class C11(EngineProp):
             fails.append({'signature': 'close-notification-count', 'what': 'on_close was delivered %d times after the connection ended (%s)' % (ncl, steps[L][1][:8])})
         if obs['final']['sent_after_close']:
             fails.append({'signature': 'sends-after-close', 'what': '%d frames reached the transport after the close notification' % obs['final']['sent_after_close']})
+        if obs['final'].get('oneway_pending'):
+            fails.append({'signature': 'unsent-one-way-request-left-pending', 'what': 'the awaitable of %s whose frame had not left the endpoint is still pending after the connection ended' % obs['final']['oneway_pending']})
         if obs['final']['sender_alive']:
             fails.append({'signature': 'sender-still-running', 'what': 'the sender task is still running after the connection ended'})
         for oid, kind in enumerate(obs['kinds']):
